@@ -334,9 +334,20 @@ def configs_for(pid, tier):
 
 
 def run(ctx, pid, tier):
+    from .engine import CheckError
     spec = PROPS[pid]
-    for cfg in configs_for(pid, tier):
-        view = ctx.view(cfg)
+    cfgs = configs_for(pid, tier)
+    for cfg in cfgs:
+        try:
+            view = ctx.view(cfg)
+        except CheckError as e:
+            # the default build is the reference; an optional configuration that does not build is recorded, not fatal,
+            # unless it is the only one this property can be decided in (C15) or nothing was analysed at all
+            if cfg != "std" and pid != "C15" and "std" in cfgs:
+                ctx.notes.append("configuration %s could not be analysed: %s" % (cfg, str(e)[:300]))
+                ctx.undecided.append("configuration %s (does not build)" % cfg)
+                continue
+            raise
         for r in spec["rules"]:
             r(ctx, view)
     if tier == "thorough":
